@@ -101,8 +101,42 @@ static void on_sched_fail(int kind, const char *detail) {
   _exit(10);
 }
 
+static double g_wd_cpu_tick = 0;
+static int g_wd_secs = 0, g_wd_elapsed = 0, g_wd_asleep = 0;
+int g_wd_waiting_for_child = 0;   // set by code that sleeps in read()/waitpid() while a forked child does the work
+static const int WD_TICK = 5;
+static double proc_cpu_now() {
+  struct timespec ts;
+  clock_gettime(CLOCK_PROCESS_CPUTIME_ID, &ts);
+  return ts.tv_sec + ts.tv_nsec * 1e-9;
+}
+void arm_watchdog(int secs) {
+  g_wd_cpu_tick = proc_cpu_now();
+  g_wd_secs = secs;
+  g_wd_elapsed = 0;
+  g_wd_asleep = 0;
+  alarm(secs > 0 ? (secs < WD_TICK ? secs : WD_TICK) : 0);
+}
+
 static void on_alarm(int) {
-  // a CPU loop that never reaches a scheduling point; reported as candidate only (the driver replays it)
+  // Two very different things end here.  A CPU loop that never reaches a scheduling point burns the whole interval on the
+  // processor: that is reported (as a candidate; the driver replays it).  A process that uses no CPU at all for two ticks
+  // in a row is asleep: the simulated thread holding the baton waits inside a blocking primitive the simulator does not
+  // own (a future, a semaphore, a pthread call, ...) whose owner is parked.  That is a limit of the simulation, not a
+  // behaviour of the code under test, and is skipped and counted instead of being reported.
+  double now = proc_cpu_now(), cpu = now - g_wd_cpu_tick;
+  g_wd_cpu_tick = now;
+  g_wd_elapsed += WD_TICK;
+  if (!g_wd_waiting_for_child && cpu < 0.01 * WD_TICK) g_wd_asleep++; else g_wd_asleep = 0;
+  if (g_wd_asleep >= 2) {
+    if (g_ctx.hang_cb) _exit(15);
+    if (g_child_fd >= 0) { std::string m = "S\nunsimulated-blocking\n"; (void)!write(g_child_fd, m.data(), m.size()); _exit(12); }
+    const Scn *s = g_ctx.scn;
+    fprintf(rep, "H %ld skip unsimulated-blocking detail=%s asleep in a primitive outside the simulation (no CPU used for %d s)\n", s ? s->index : -1, g_ctx.opname, 2 * WD_TICK);
+    fflush(rep);
+    _exit(12);
+  }
+  if (g_wd_elapsed < g_wd_secs) { alarm(WD_TICK); return; }
   on_sched_fail(simsched::FAIL_WALL, "wall-clock watchdog fired");
 }
 
@@ -118,6 +152,7 @@ static void setup_io() {
   struct sigaction sa;
   memset(&sa, 0, sizeof sa);
   sa.sa_handler = on_alarm;
+  sa.sa_flags = SA_RESTART;   // the watchdog ticks; a tick must not make a read() or sem_wait() of the run fail with EINTR
   sigaction(SIGALRM, &sa, NULL);
 }
 
@@ -126,7 +161,7 @@ static int wall_limit() { return build_chunk_bytes() >= (1u << 20) ? 600 : 20; }
 static Verdict run_scn(const PropDef *p, const Scn &s) {
   g_ctx = Ctx();
   g_ctx.scn = &s;
-  alarm(wall_limit());
+  arm_watchdog(wall_limit());
   Verdict v = p->run(s);
   alarm(0);
   return v;
@@ -169,6 +204,7 @@ static ChildOut run_child(const Scn &s) {
     _exit(0);
   }
   close(pfd[1]);
+  ChildWait child_wait;
   std::string buf;
   char tmp[65536];
   ssize_t n;
